@@ -8,7 +8,7 @@ PROPS = [json.loads(l)["id"] for l in open(os.path.join(HERE, "properties.jsonl"
 
 # id -> (technique, level text, level note, design ref)
 CHECKS = {
- "C01": ("TLC exhaustive model checking of IncExplainer.tla (Efficiency invariant) + TLC behaviours replayed into IncrementalSage + TLC trace validation of recorded explain_one calls in GF(p)",
+ "C01": ("TLC exhaustive model checking of IncExplainer.tla (Efficiency invariant) and of the atomic AbsExplainer.tla it refines (TLC refinement check Refine_IncExplainer.tla) + TLC behaviours replayed into IncrementalSage + TLC trace validation of recorded explain_one calls in GF(p)",
          "Efficiency is a state invariant of the TLA+ specification, checked by TLC in every reachable state (all orders, row draws, reservoir outcomes, fault positions) for small constants; the code is bound to the specification by replaying every TLC behaviour into the real class (exact Fractions) and by validating recorded executions over the configuration product with TLC (the identity is evaluated on every logged state).",
          "callbacks deterministic; exact identity checked mod p=46337 on Fraction runs; floats within an explicit tolerance; model bounds d<=3, n_inner<=2, <=4 calls (TLC) and d<=4, <=60 calls (traces)", "§4 C01"),
  "C02": ("TLC model checking of IncExplainer.tla in PFI mode (RunningStatistic, ContributionDefinition, FirstCallSeedsOnly) + behaviour replay + TLC trace validation in GF(p)",
@@ -26,7 +26,7 @@ CHECKS = {
  "C06": ("TLC exhaustive model checking of MC_Imputers.tla (all subsets, storages, draws) + every behaviour replayed into MarginalImputer / DefaultImputer with scripted row draws + imputer clauses on explainer traces validated by TLC",
          "AgreesOutside, InsideFromBackground, JointNeverMixes, EmptySubsetIsIdentity are TLC invariants; each enumerated case is replayed into the real imputers for six subset container types and four storage kinds (model inputs, predictions, non-mutation), and imputer calls inside recorded explainer runs are checked by TLC.",
          "values encode their origin (instance / row / default); TreeImputer is covered by C19", "§4 C06"),
- "C07": ("TLC exhaustive model checking of Storages.tla (5 kinds, every reservoir outcome) + behaviour replay into the deterministic storages and the p=1 reservoir + TLC trace validation with the reservoir outcome inferred",
+ "C07": ("TLC exhaustive model checking of Storages.tla (5 kinds, every reservoir outcome) + Apalache inductive invariants for streams of any length (StoreInd.tla, kernels bound to Storages.tla by TLC) + behaviour replay into the deterministic storages and the p=1 reservoir + TLC trace validation with the reservoir outcome inferred",
          "Sub-multiset, count, alignment and the per-kind content laws are TLC invariants over all update sequences and all accept/slot outcomes; every recorded update of the five real classes must be a specification successor of the logged content (TLC infers the random outcome).",
          "x and y carry different encodings of the arrival id; reservoir outcomes that need an assumption on how a uniform draw maps to acceptance are only validated in direction B", "§4 C07"),
  "C08": ("TLC distribution-transformer model checking (ReservoirLaw.tla, exact rationals: UniformSubsets, UniformInclusion) + AlgorithmL.tla control structure with StaleW negative control + calibrated statistics of the code against the TLC-exported law + white-box skip check",
@@ -38,7 +38,7 @@ CHECKS = {
  "C10": ("TLC exhaustive model checking of Trackers.tla closed forms over exact rationals + every TLC state replayed into the trackers + TLC validation of recorded transitions in GF(p)",
          "All streams over a 5-letter alphabet up to length 5-7 are enumerated by TLC with the closed forms, linearity, hull and shift/scale laws as invariants; each state is replayed into the real classes (Fraction, float, NumPy) and generic transitions of the code are validated by TLC as polynomial identities.",
          "induction over the stream length is at the specification level; the code's single step is bound by identity testing mod p", "§4 C10"),
- "C11": ("TLC model checking of the ring-buffer specification (WindowIsLastK, WrapBug negative control) + replay of all (k, n) states + TLC trace validation with TLC carrying the window",
+ "C11": ("TLC model checking of the ring-buffer specification (WindowIsLastK, WrapBug negative control) + Apalache inductive invariant for streams of any length (SWInd.tla, step bound to Trackers!SWUpd by TLC) + replay of all (k, n) states + TLC trace validation with TLC carrying the window",
          "The window content is an invariant over all k <= 5 and n <= 2k+3; every state is driven through SlidingWindowTracker and random integer streams are validated by TLC, which carries the specification's buffer.",
          "float statistics compared with explicit tolerance", "§4 C11"),
  "C12": ("TLC model checking of MVUpd/MVNorm over all update-dictionary sequences + replay with six numeric types + TLC trace validation in GF(p)",
@@ -50,13 +50,13 @@ CHECKS = {
  "C14": ("TLC case enumeration Wrappers.tla (shape x batch x feature_names x key order; river label state machine with OneHot invariant), each state one implementation test of SklearnWrapper / TorchWrapper / RiverWrapper + dispatch over installed model classes",
          "The canonical form, batch = row-wise, order independence with names and the one-hot-over-seen-labels law are stated in the specification; TLC enumerates the cases and the harness executes each against the real wrappers with stub prediction functions whose outputs encode which inputs reached them.",
          "installed sklearn / river / torch versions; stub prediction functions", "§4 C14"),
- "C15": ("TLC case enumeration ContractMatrix.tla (one implementation test per state) + TLC invariants/action properties of IncExplainer.tla (budget, store-once-after, no self background) + TLC trace validation of contract clauses",
+ "C15": ("TLC case enumeration ContractMatrix.tla (one implementation test per state) + TLC invariants/action properties of IncExplainer.tla (budget, store-once-after, no self background) + TLC refinement to the atomic AbsExplainer.tla (a returning call = one Explain step) + TLC trace validation of contract clauses",
          "The configuration matrix is enumerated by TLC and each state constructed and exercised on the real classes; the call contract (model budget, seen counter, storage update once and last, arguments untouched, returned dict) is checked by TLC on recorded calls and as invariants of the specification.",
          "budget stated for the default imputer; 1200 configurations, short streams", "§4 C15"),
  "C16": ("TLC case enumeration NormConf.tla in exact rationals (RatiosKept, SumIsOne, RangeIsOne, ZeroFallbackAllZero, BoundWellFormed), each state one implementation test per numeric type + bounds on reachable explainer states + VarNonNegative invariant of IncExplainer.tla",
          "All importance dictionaries of <= 3 values in -2..2 x both modes and a variance x alpha x t x delta grid are enumerated by TLC with the normalisation laws as invariants; every state is executed against _normalize_importance_values / get_normalized_importance_values with int, float, Fraction and NumPy scalars, and get_confidence_bound against the specification's BoundSq.",
          "a bound is required to equal the formula (non-negative, finite); tolerance 1e-9 (1e-6 float32)", "§4 C16"),
- "C17": ("TLC model checking with a Fault action at every callback step (FaultAtomic, Efficiency; CommitEarly negative controls) + replay of all TLC fault behaviours into the code + enumerated fault injection validated by TLC",
+ "C17": ("TLC model checking with a Fault action at every callback step (FaultAtomic, Efficiency; CommitEarly negative controls) + TLC refinement check: the micro-step specification implements the atomic AbsExplainer.tla, a failed call being a stuttering step (witness and existential form; old commit order refuted) + replay of all TLC fault behaviours into the code + enumerated fault injection validated by TLC",
          "Every (call, callback) fault position of the bounded model is explored by TLC and replayed into the real explainers; random scenarios get every fault position injected in turn and TLC checks atomicity and the efficiency identity of the continued stream.",
          "single and double faults; `seen` after a failed call left open", "§4 C17"),
  "C18": ("TLC behaviours replayed with the RNG tape in script mode (the run must be a function of stream and tape: every choice requested from the global generators with the specified kind/range, none left unconsumed, state equal to the specification's) + TLC trace validation of draw clauses + same-process and two-fresh-process replays compared bit for bit",
